@@ -530,7 +530,10 @@ def build_problem(sc: dict, trace: Trace, tag, wrappers: list, sign=None):
 
     else:
         fn = rec
-    p = FunctionProblem(fn, bounds=box, maximize=bool(sc["maximize"]))
+    if sc.get("use_cache"):
+        p = FunctionProblem(fn, bounds=box, maximize=bool(sc["maximize"]), use_cache=True)
+    else:
+        p = FunctionProblem(fn, bounds=box, maximize=bool(sc["maximize"]))
     layers = []
     for w in wrappers:
         if w == "count":
